@@ -19,6 +19,7 @@ func ledgerPlan(o LedgerGenOpts) func(p *PRNG, cfg Config, tier string) Plan {
 		oo.NonceCollisions = o.NonceCollisions && p.Chance(1, 2)
 		oo.MultiOperatorMsgs = o.MultiOperatorMsgs && p.Chance(1, 2)
 		oo.BigAmounts = o.BigAmounts && p.Chance(1, 3)
+		oo.DirectSlashes = o.DirectSlashes && p.Chance(1, 2)
 		plan := GenLedgerPlan(p, cfg, oo)
 		if oo.DirectSlashes {
 			factors := []string{"0.01", "0.05", "0.3", "0.5", "1"}
@@ -72,7 +73,7 @@ func init() {
 		Assumptions: ledgerAssumptions,
 		QuickRuns:   700, ThoroughRuns: 12000,
 		GenConfig: ledgerConfig,
-		GenPlan: ledgerPlan(LedgerGenOpts{DowntimeBursts: true, Evidence: true, EpochJumps: true, Restarts: true, NonceCollisions: true, MultiOperatorMsgs: true,
+		GenPlan: ledgerPlan(LedgerGenOpts{DirectSlashes: true, DowntimeBursts: true, Evidence: true, EpochJumps: true, Restarts: true, NonceCollisions: true, MultiOperatorMsgs: true,
 			W: map[string]int{"dep": 6, "wd": 3, "del": 10, "und": 14, "assoc": 1, "dissoc": 1, "ndel": 5, "nund": 7, "optin": 3, "optout": 2, "setkey": 2, "unjail": 1}}),
 		Monitors: func() []Monitor { return []Monitor{&c03Monitor{}} },
 		NonTrivial: func(r *Run) bool {
